@@ -198,6 +198,10 @@ class Sandbox:
             with self.trace.as_filename(filename, code):
                 exec(compiled_code, self.data)
         except Exception as user_exception:
+            if current_thread_was_terminated():
+                # Student code survived the request to stop (say, a bare `except:`) and failed
+                # later on: this run was abandoned long ago, see below
+                return self
             self._stop_mocking(context)
             self._capture_exception(user_exception, sys.exc_info(),
                                     code, filename)
@@ -214,11 +218,16 @@ class Sandbox:
             self._capture_exception(system_exit, sys.exc_info(),
                                     code, filename)
         except BaseException:
+            if current_thread_was_terminated():
+                return self
             # KeyboardInterrupt, GeneratorExit and other non-Exception classes are not ours to
             # handle, but what we patched still has to be put back before they travel on
             self._stop_mocking(context)
             raise
         else:
+            if current_thread_was_terminated():
+                # ... or swallowed the request and ran to its end
+                return self
             self._stop_mocking(context)
 
         self._next_context_id += 1
